@@ -5,8 +5,8 @@ package PVM
 //
 // A case: {"id","tag","calls":[{"op":"write","k":[..],"v":[..]} | {"op":"transfer","amt":n} | {"op":"new","c":tag}
 //                              | {"op":"yield","h":tag} | {"op":"provide","b":[..]} | {"op":"checkpoint"}
-//                              | {"op":"upgrade","c":tag} | {"op":"solicit","h":tag,"z":n}],
-//          "ends":[{"kind":"halt0|halt32|halt5|trap|spin|oog","k":n,"d":"min|max"}]}
+//                              | {"op":"upgrade","c":tag} | {"op":"solicit","h":tag,"z":n} | {"op":"forget","h":tag,"z":n}],
+//          "ends":[{"kind":"halt0|halt32|halt5|halt33|halt48|halt64|halt200|trap|spin|oog","k":n,"d":"min|max"}]}
 // Each behaviour (call sequence + ending) is assembled into a real accumulate program (load_imm_64 / ecalli
 // sequences, operands in the read-write segment of a standard program blob), installed as the code of service
 // 42 in a fresh state, and executed with Psi_A.  For the call sequence the driver also runs every prefix
@@ -18,6 +18,7 @@ package PVM
 import (
 	"encoding/json"
 	"sort"
+	"strconv"
 	"testing"
 
 	"github.com/New-JAMneration/JAM-Protocol/internal/service_account"
@@ -124,6 +125,10 @@ func (a *vfaAsm) call(c map[string]any) {
 		a.loadImm64(7, a.put(vfaRep(vfd.I(c["h"]), 32)))
 		a.loadImm64(8, uint64(vfd.I(c["z"])))
 		a.ecalli(int(SolicitOp))
+	case "forget":
+		a.loadImm64(7, a.put(vfaRep(vfd.I(c["h"]), 32)))
+		a.loadImm64(8, uint64(vfd.I(c["z"])))
+		a.ecalli(int(ForgetOp))
 	case "checkpoint":
 		a.ecalli(int(CheckpointOp))
 	default:
@@ -144,6 +149,11 @@ func (a *vfaAsm) end(kind string) {
 	case "halt5":
 		a.loadImm64(7, a.put(vfaRep(78, 5)))
 		a.loadImm64(8, 5)
+		a.ins(50, 0)
+	case "halt33", "halt48", "halt64", "halt200": // an output longer than a hash
+		n, _ := strconv.Atoi(kind[4:])
+		a.loadImm64(7, a.put(vfaRep(79, n)))
+		a.loadImm64(8, uint64(n))
 		a.ins(50, 0)
 	case "trap":
 		a.ins(0)
@@ -197,6 +207,12 @@ func vfaState(program []byte, provideBlobs [][]byte) (types.PartialStateSet, typ
 	for _, b := range provideBlobs { // solicited, not yet provided
 		self.LookupDict[types.LookupMetaMapkey{Hash: hash.Blake2bHash(b), Length: types.U32(len(b))}] = types.TimeSlotSet{}
 	}
+	// lookup entries with 0, 1, 2 and 3 slots (hash = 32 x tag 80..83, length 10) for solicit / forget; the slots are
+	// far older than the accumulation's time slot minus D
+	self.LookupDict[types.LookupMetaMapkey{Hash: types.OpaqueHash(vfaRep(80, 32)), Length: 10}] = types.TimeSlotSet{}
+	self.LookupDict[types.LookupMetaMapkey{Hash: types.OpaqueHash(vfaRep(81, 32)), Length: 10}] = types.TimeSlotSet{5}
+	self.LookupDict[types.LookupMetaMapkey{Hash: types.OpaqueHash(vfaRep(82, 32)), Length: 10}] = types.TimeSlotSet{5, 6}
+	self.LookupDict[types.LookupMetaMapkey{Hash: types.OpaqueHash(vfaRep(83, 32)), Length: 10}] = types.TimeSlotSet{5, 6, 7}
 	d := service_account.GetServiceAccountDerivatives(self)
 	self.ServiceInfo.Items, self.ServiceInfo.Bytes = d.Items, d.Bytes
 	// the three storage entries that exist only as raw key-values count in the footprint as well
@@ -354,7 +370,7 @@ func (rn *vfaRunner) run(program []byte, gas uint64) vfaRun {
 	ops := []types.OperandOrDeferredTransfer{{DeferredTransfer: &types.DeferredTransfer{SenderID: vfaDest, ReceiverID: vfaSelf, Balance: vfaIncoming}}}
 	var r Psi_A_ReturnType
 	panicked, msg := vfd.Guard(func() {
-		r = Psi_A(ps, types.TimeSlot(5), vfaSelf, types.Gas(gas), ops, types.Entropy{4, 4, 4}, kv)
+		r = Psi_A(ps, types.TimeSlot(100000), vfaSelf, types.Gas(gas), ops, types.Entropy{4, 4, 4}, kv)
 	})
 	if panicked {
 		return vfaRun{S: -1, Y: []int{}, GoPanic: msg}
